@@ -1,12 +1,15 @@
 package kvgraph
 
 import (
+	"bytes"
 	"context"
 	"fmt"
 	"strings"
 
 	"github.com/bmeg/grip/gripql"
 	"github.com/bmeg/grip/jsonpath"
+	"github.com/bmeg/grip/kvi"
+	"github.com/bmeg/grip/kvindex"
 	"github.com/bmeg/grip/log"
 )
 
@@ -30,6 +33,28 @@ func (kgraph *KVGraph) deleteGraphIndex(graph string) {
 			kgraph.idx.RemoveField(f)
 		}
 	}
+}
+
+// unindexLabel removes the label-index entry of a deleted element and, when no
+// other element carries that label any more, the label's term, so that label
+// scans and label listings no longer report it. kind is "v" or "e".
+func (kgraph *KVGraph) unindexLabel(graph, kind, label, id string) error {
+	field := fmt.Sprintf("%s.%s.label", graph, kind)
+	term, ttype := kvindex.GetTermBytes(label)
+	if err := kgraph.kv.Delete(kvindex.EntryKey(field, ttype, term, id)); err != nil {
+		return err
+	}
+	remaining := false
+	prefix := kvindex.EntryValuePrefix(field, ttype, term)
+	kgraph.kv.View(func(it kvi.KVIterator) error {
+		it.Seek(prefix)
+		remaining = it.Valid() && bytes.HasPrefix(it.Key(), prefix)
+		return nil
+	})
+	if !remaining {
+		return kgraph.kv.Delete(kvindex.TermKey(field, ttype, term))
+	}
+	return nil
 }
 
 func normalizePath(path string) string {
